@@ -5,6 +5,12 @@ class Obj:
     pass
 
 
+class SObj:
+    """an object whose class defines __setstate__: its state mapping is built with deep=True after the instance exists"""
+    def __setstate__(self, state):
+        self.__dict__.update(state)
+
+
 class App:
     """built by !!python/object/apply:harness.canary.mkapp [args...]"""
     def __init__(self, args):
